@@ -7,11 +7,17 @@
         no names on the wire) as `encode : value -> list N` and the type-directed
         `decode : shape -> list N -> option (value * list N)`;
     (3) the shape of a type declaration as produced by tools/c19_serde2coq.py from the Rust
-        sources (`type_decl`), the classification of `serde(...)` attributes, and what
-        serde_derive 1.0.x generates for them: which fields reach the wire, how skipped fields
-        come back (their default), how enum variants are numbered by the generated serialiser
-        (position among all variants) and by the generated deserialiser (position among the
-        variants that are not skipped). *)
+        sources (`type_decl`), the table of `serde(...)` attributes ([attr_kind], [treatment_of])
+        and what serde_derive 1.0.x generates for them, for the two disciplines a format can follow:
+        POSITIONAL (non-self-describing: bincode - a struct is the sequence of the fields that are
+        written, an enum variant is its index) and KEYED (self-describing: serde_json - a struct is
+        a map from names to values, read in any order, unknown keys ignored unless denied, a
+        variant is its name). Which fields are written ([ser_pos]: skip, skip_serializing,
+        skip_serializing_if), how they are read back ([de_pos], [de_key]: skip,
+        skip_deserializing, default, rename / alias, deny_unknown_fields, missing Option), how
+        variants are numbered / named ([ser_variant], [de_variant], [de_variant_key]), the
+        container representations (transparent, untagged, tag, content) and the attributes that
+        hand control to user code (with, from, into, ...: [TOpaque], never counted as lossless). *)
 From Coq Require Import List String Ascii NArith ZArith Bool.
 Import ListNotations.
 Local Open Scope N_scope.
@@ -294,38 +300,190 @@ Fixpoint value_eqb (a b : value) {struct a} : bool :=
 
 (* ------------------------------------------------------------------ declarations (translated) *)
 Definition sattr := (string * string)%type.      (* serde attribute: name, raw argument text *)
-Record field_decl := mkF { fd_name : string; fd_wire : string; fd_ty : string; fd_attrs : list sattr }.
-Record variant_decl := mkV { vd_name : string; vd_wire : string; vd_kind : skind; vd_attrs : list sattr;
-                             vd_fields : list field_decl }.
+(** [fd_wire]: the name written by the generated serialiser; [fd_de]: the names the generated
+    deserialiser accepts (rename / rename_all / alias resolved by the translator) *)
+Record field_decl := mkF { fd_name : string; fd_wire : string; fd_de : list string; fd_ty : string;
+                           fd_attrs : list sattr }.
+Record variant_decl := mkV { vd_name : string; vd_wire : string; vd_de : list string; vd_kind : skind;
+                             vd_attrs : list sattr; vd_fields : list field_decl }.
 Inductive body_decl := BStruct (k : skind) (fs : list field_decl) | BEnum (vs : list variant_decl).
-Record type_decl := mkT { td_name : string; td_src : string; td_ser : bool; td_de : bool;
+Record type_decl := mkT { td_name : string; td_wire : string; td_src : string; td_ser : bool; td_de : bool;
                           td_attrs : list sattr; td_body : body_decl }.
 
 Local Open Scope string_scope.
 Definition has_attr (n : string) (l : list sattr) : bool := existsb (fun a => String.eqb (fst a) n) l.
-
-(** attributes that do not change which data reaches the wire or how it is read back
-    (symmetric renames are already applied to [fd_wire] / [vd_wire] by the translator) *)
-Definition harmless_attr (n : string) : bool :=
-  existsb (String.eqb n) ["crate"; "bound"; "rename"; "rename_all"; "deny_unknown_fields"; "alias"; "expecting"; "borrow"].
-(** everything else (skip, skip_serializing, skip_deserializing, skip_serializing_if, default, with,
-    serialize_with, deserialize_with, from, try_from, into, other, flatten, tag, content, untagged,
-    transparent, remote, getter, rename_asymmetric, anything unknown) is treated as lossy *)
-Definition attr_lossless (a : sattr) : bool := harmless_attr (fst a).
-Definition skips_ser (l : list sattr) : bool := has_attr "skip" l || has_attr "skip_serializing" l.
-Definition skips_de (l : list sattr) : bool := has_attr "skip" l || has_attr "skip_deserializing" l.
-
-Definition field_lossless (f : field_decl) : bool := forallb attr_lossless (fd_attrs f).
-Definition variant_lossless (v : variant_decl) : bool :=
-  forallb attr_lossless (vd_attrs v) && forallb field_lossless (vd_fields v).
-Definition lossless_decl (d : type_decl) : bool :=
-  td_ser d && td_de d && forallb attr_lossless (td_attrs d) &&
-  match td_body d with
-  | BStruct _ fs => forallb field_lossless fs
-  | BEnum vs => forallb variant_lossless vs
+Definition mem (s : string) (l : list string) : bool := existsb (String.eqb s) l.
+Fixpoint assoc {A} (n : string) (l : list (string * A)) : option A :=
+  match l with
+  | [] => None
+  | (k, v) :: r => if String.eqb k n then Some v else assoc n r
   end.
 
-(* ---- what the derived impls do with a struct's fields ---- *)
+(* ------------------------------------------------------------------ the attribute table *)
+(** every attribute serde_derive accepts, plus the three names the translator produces itself *)
+Inductive attr_kind :=
+| ACrate | ABound | AExpecting | ABorrow | AOther
+| ARename | ARenameAsym | ARenameAll | ARenameAllFields | AAlias
+| ASkip | ASkipSer | ASkipDe | ASkipSerIf | ADefault | ADenyUnknown | AFlatten
+| ATransparent | AUntagged | ATag | AContent
+| AWith | ASerWith | ADeWith | AFrom | ATryFrom | AInto | ARemote | AGetter | AVariantIdent | AFieldIdent
+| ARenameAllUnknown | AUnsupported.
+
+Definition attr_table : list (string * attr_kind) :=
+  [("crate", ACrate); ("bound", ABound); ("expecting", AExpecting); ("borrow", ABorrow); ("other", AOther);
+   ("rename", ARename); ("rename_asymmetric", ARenameAsym); ("rename_all", ARenameAll);
+   ("rename_all_fields", ARenameAllFields); ("alias", AAlias);
+   ("skip", ASkip); ("skip_serializing", ASkipSer); ("skip_deserializing", ASkipDe);
+   ("skip_serializing_if", ASkipSerIf); ("default", ADefault); ("deny_unknown_fields", ADenyUnknown);
+   ("flatten", AFlatten);
+   ("transparent", ATransparent); ("untagged", AUntagged); ("tag", ATag); ("content", AContent);
+   ("with", AWith); ("serialize_with", ASerWith); ("deserialize_with", ADeWith); ("from", AFrom);
+   ("try_from", ATryFrom); ("into", AInto); ("remote", ARemote); ("getter", AGetter);
+   ("variant_identifier", AVariantIdent); ("field_identifier", AFieldIdent);
+   ("rename_all_unknown_rule", ARenameAllUnknown); ("unsupported", AUnsupported)].
+Definition attr_of_name (n : string) : option attr_kind := assoc n attr_table.
+
+(** how the model treats an attribute *)
+Inductive treatment :=
+| TNeutral     (* no influence on what is written or on how the type's own output is read back:
+                  crate path, trait bounds, error text, borrowing, the catch-all variant for foreign tags *)
+| TNames       (* resolved by the translator into fd_wire / fd_de, vd_wire / vd_de, td_wire *)
+| TFlow        (* decides whether a field / variant is written, whether it is read, and what a missing
+                  one becomes: [ser_pos], [de_pos], [de_key], [ser_variant], [de_variant] *)
+| TRepr        (* the representation of the container: [ser_container], [repr_of] *)
+| TOpaque.     (* hands control to user code, or is unknown to the translator: no model; a declaration
+                  that carries one is never counted as lossless *)
+Definition treatment_of (k : attr_kind) : treatment :=
+  match k with
+  | ACrate | ABound | AExpecting | ABorrow | AOther => TNeutral
+  | ARename | ARenameAsym | ARenameAll | ARenameAllFields | AAlias => TNames
+  | ASkip | ASkipSer | ASkipDe | ASkipSerIf | ADefault | ADenyUnknown | AFlatten => TFlow
+  | ATransparent | AUntagged | ATag | AContent => TRepr
+  | AWith | ASerWith | ADeWith | AFrom | ATryFrom | AInto | ARemote | AGetter | AVariantIdent | AFieldIdent
+  | ARenameAllUnknown | AUnsupported => TOpaque
+  end.
+Definition attr_known (n : string) : bool := match attr_of_name n with Some _ => true | None => false end.
+Definition attr_opaque (a : sattr) : bool :=
+  match attr_of_name (fst a) with
+  | Some k => match treatment_of k with TOpaque => true | _ => false end
+  | None => true
+  end.
+Definition no_opaque (l : list sattr) : bool := negb (existsb attr_opaque l).
+
+(* ------------------------------------------------------------------ fields: what is written, what is read *)
+Definition skips_ser (l : list sattr) : bool := has_attr "skip" l || has_attr "skip_serializing" l.
+Definition skips_de (l : list sattr) : bool := has_attr "skip" l || has_attr "skip_deserializing" l.
+Definition f_sif (f : field_decl) : bool := has_attr "skip_serializing_if" (fd_attrs f).
+Definition f_flatten (f : field_decl) : bool := has_attr "flatten" (fd_attrs f).
+Definition f_read (f : field_decl) : bool := negb (skips_de (fd_attrs f)).
+(** [cd]: the container carries `serde(default)` (every field then falls back to the container's default) *)
+Definition f_has_default (cd : bool) (f : field_decl) : bool := cd || has_attr "default" (fd_attrs f).
+(** serde's `missing_field` helper answers `None` for an `Option` without any default *)
+Definition f_is_option (f : field_decl) : bool := prefix "Option<" (fd_ty f).
+Definition f_self_named (f : field_decl) : bool := mem (fd_wire f) (fd_de f).
+
+(** one field of one value: the value it holds, the value it gets when nothing is read for it
+    (`Default::default()`, the `default = "path"` function or the container default's field), and
+    whether its `skip_serializing_if` predicate holds on the value *)
+Record fin := mkIn { in_val : value; in_dflt : value; in_sif : bool }.
+Definition f_written (f : field_decl) (i : fin) : bool :=
+  negb (skips_ser (fd_attrs f)) && negb (f_sif f && in_sif i).
+
+(** generated Serialize: the fields that are written, in declaration order, under their names *)
+Fixpoint ser_pos (fds : list field_decl) (ins : list fin) : list (string * value) :=
+  match fds, ins with
+  | f :: fds', i :: ins' =>
+      if f_written f i then (fd_wire f, in_val i) :: ser_pos fds' ins' else ser_pos fds' ins'
+  | _, _ => []
+  end.
+(** generated Deserialize driven POSITIONALLY (`visit_seq`, bincode): every field that is read takes the
+    next element. The names carried along stand for the alignment of the byte stream: where the element at
+    hand is not the one the field wrote, the model answers [None] (bincode then fails or reinterprets the
+    bytes of another field - either way the value is not the original one). *)
+Fixpoint de_pos (fds : list field_decl) (ins : list fin) (wire : list (string * value)) : option (list value) :=
+  match fds, ins with
+  | [], [] => match wire with [] => Some [] | _ => None end
+  | f :: fds', i :: ins' =>
+      if f_read f then
+        match wire with
+        | (n, v) :: wire' =>
+            if String.eqb n (fd_wire f) then
+              match de_pos fds' ins' wire' with Some l => Some (v :: l) | None => None end
+            else None
+        | [] => None
+        end
+      else match de_pos fds' ins' wire with Some l => Some (in_dflt i :: l) | None => None end
+  | _, _ => None
+  end.
+
+(** generated Deserialize driven BY KEY (`visit_map`, serde_json) *)
+Definition matches (names : list string) (obj : list (string * value)) : list value :=
+  map snd (filter (fun kv => mem (fst kv) names) obj).
+Definition de_key_field (cd : bool) (obj : list (string * value)) (f : field_decl) (i : fin) : option value :=
+  if f_read f then
+    match matches (fd_de f) obj with
+    | [] => if f_has_default cd f then Some (in_dflt i) else if f_is_option f then Some VNone else None
+    | [v] => Some v
+    | _ => None                                      (* "duplicate field" *)
+    end
+  else Some (in_dflt i).
+Definition known_key (fds : list field_decl) (k : string) : bool :=
+  existsb (fun f => f_read f && mem k (fd_de f)) fds.
+Fixpoint map_opt2 {A B C} (g : A -> B -> option C) (l : list A) (m : list B) : option (list C) :=
+  match l, m with
+  | [], [] => Some []
+  | a :: l', b :: m' =>
+      match g a b, map_opt2 g l' m' with Some c, Some r => Some (c :: r) | _, _ => None end
+  | _, _ => None
+  end.
+Definition de_key (deny cd : bool) (fds : list field_decl) (ins : list fin) (obj : list (string * value))
+  : option (list value) :=
+  if deny && negb (forallb (fun kv => known_key fds (fst kv)) obj) then None
+  else map_opt2 (de_key_field cd obj) fds ins.
+
+(** what comes back for one field through a keyed format, without any lookup *)
+Definition f_present (f : field_decl) (i : fin) : bool := f_written f i && f_self_named f.
+Definition key_field_result (cd : bool) (f : field_decl) (i : fin) : option value :=
+  if f_read f then
+    if f_present f i then Some (in_val i)
+    else if f_has_default cd f then Some (in_dflt i) else if f_is_option f then Some VNone else None
+  else Some (in_dflt i).
+(** a field that is written under a name no field reads *)
+Definition f_stray (f : field_decl) (i : fin) : bool := f_written f i && negb (f_read f && f_self_named f).
+Fixpoint any2 {A B} (p : A -> B -> bool) (l : list A) (m : list B) : bool :=
+  match l, m with a :: l', b :: m' => p a b || any2 p l' m' | _, _ => false end.
+Definition key_result (deny cd : bool) (fds : list field_decl) (ins : list fin) : option (list value) :=
+  if deny && any2 f_stray fds ins then None else map_opt2 (key_field_result cd) fds ins.
+
+(** no field writes a name that another field reads *)
+Definition silent (f : field_decl) (l : list field_decl) : bool :=
+  forallb (fun g => negb (mem (fd_wire g) (fd_de f))) l.
+Fixpoint names_ok_from (pre post : list field_decl) : bool :=
+  match post with
+  | [] => true
+  | f :: post' => silent f pre && silent f post' && names_ok_from (pre ++ [f]) post'
+  end.
+Definition names_ok (fds : list field_decl) : bool := names_ok_from [] fds.
+
+(** the value that comes back through a positional format when the layout is aligned *)
+Fixpoint merge_pos (fds : list field_decl) (ins : list fin) : list value :=
+  match fds, ins with
+  | f :: fds', i :: ins' => (if f_read f then in_val i else in_dflt i) :: merge_pos fds' ins'
+  | _, _ => []
+  end.
+Fixpoint aligned (fds : list field_decl) (ins : list fin) : bool :=
+  match fds, ins with
+  | f :: fds', i :: ins' => Bool.eqb (f_written f i) (f_read f) && aligned fds' ins'
+  | [], [] => true
+  | _, _ => false
+  end.
+Fixpoint wire_nodup (fds : list field_decl) : bool :=
+  match fds with [] => true | f :: r => negb (mem (fd_wire f) (map fd_wire r)) && wire_nodup r end.
+
+(* ---- the older, attribute-poorer interface (skip only): kept for the layout correspondence ---- *)
+Definition field_pos_static (f : field_decl) : bool :=
+  no_opaque (fd_attrs f) && negb (skips_ser (fd_attrs f)) && f_read f && negb (f_sif f) && negb (f_flatten f).
+Definition field_lossless (f : field_decl) : bool := field_pos_static f.
 (** Serialize: the fields that are not skipped, in declaration order, under their wire names *)
 Fixpoint ser_fields (fds : list field_decl) (vals : list value) : list (string * value) :=
   match fds, vals with
@@ -361,9 +519,86 @@ Fixpoint merge_defaults (fds : list field_decl) (dflt vals : list value) : list 
 
 Definition wire_field_names (fds : list field_decl) : list string :=
   map fd_wire (filter (fun f => negb (skips_ser (fd_attrs f))) fds).
+(** the names a recorded struct may show: every field that is always written, in order; a field under
+    `skip_serializing_if` may be absent *)
+Fixpoint layout_ok (fds : list field_decl) (names : list string) : bool :=
+  match fds with
+  | [] => match names with [] => true | _ => false end
+  | f :: fds' =>
+      if skips_ser (fd_attrs f) then layout_ok fds' names
+      else match names with
+           | n :: names' =>
+               if String.eqb n (fd_wire f) then layout_ok fds' names'
+               else f_sif f && layout_ok fds' names
+           | [] => f_sif f && layout_ok fds' []
+           end
+  end.
 
 Definition ser_struct (name : string) (k : skind) (fds : list field_decl) (vals : list value) : value :=
   VStruct k name (ser_fields fds vals).
+
+(* ---- containers ---- *)
+Definition c_default (d : type_decl) : bool := has_attr "default" (td_attrs d).
+Definition c_deny (d : type_decl) : bool := has_attr "deny_unknown_fields" (td_attrs d).
+Definition c_transparent (d : type_decl) : bool := has_attr "transparent" (td_attrs d).
+(** what the generated Serialize hands to the serializer for a struct: `transparent` passes the single
+    written field through, a flattened field turns the struct into a map of unknown length, otherwise a
+    struct node *)
+Definition ser_container (d : type_decl) (k : skind) (fds : list field_decl) (ins : list fin) : value :=
+  if c_transparent d then match ser_pos fds ins with [(_, v)] => v | _ => VUnit end
+  else VStruct k (td_wire d) (ser_pos fds ins).
+(** a positional format needs the number of elements in advance: `flatten` (serialize_map(None)) is refused *)
+Definition pos_serializable (fds : list field_decl) : bool := negb (existsb f_flatten fds).
+
+(** `flatten`, read by key: the ordinary fields take the members they know; what nobody knows is collected and
+    offered to the flattened fields; a flattened struct (attribute-free) picks its own member names out of it *)
+Fixpoint plain2 (fds : list field_decl) (ins : list fin) : list field_decl * list fin :=
+  match fds, ins with
+  | f :: fds', i :: ins' =>
+      let r := plain2 fds' ins' in
+      if f_flatten f then r else (f :: fst r, i :: snd r)
+  | _, _ => ([], [])
+  end.
+Definition collect (fds : list field_decl) (obj : list (string * value)) : list (string * value) :=
+  filter (fun kv => negb (known_key fds (fst kv))) obj.
+Fixpoint ser_key_flat (fds : list field_decl) (ins : list fin) : list (string * value) :=
+  match fds, ins with
+  | f :: fds', i :: ins' =>
+      (if f_flatten f then match in_val i with VStruct KNamed _ es => es | _ => [] end
+       else if f_written f i then [(fd_wire f, in_val i)] else []) ++ ser_key_flat fds' ins'
+  | _, _ => []
+  end.
+Fixpoint pick_entries (coll : list (string * value)) (es : list (string * value)) : option (list (string * value)) :=
+  match es with
+  | [] => Some []
+  | e :: r => match matches [fst e] coll, pick_entries coll r with
+              | [v], Some m => Some ((fst e, v) :: m)
+              | _, _ => None
+              end
+  end.
+Definition de_key_flat (cd : bool) (fds : list field_decl) (ins : list fin) (obj : list (string * value))
+  : option (list value) :=
+  let coll := collect (fst (plain2 fds ins)) obj in
+  map_opt2 (fun f i => if f_flatten f then
+                         match in_val i with
+                         | VStruct KNamed n es => match pick_entries coll es with Some m => Some (VStruct KNamed n m) | None => None end
+                         | _ => None
+                         end
+                       else de_key_field cd obj f i) fds ins.
+
+(** enum representations *)
+Inductive repr := RExternal | RInternal (tag : string) | RAdjacent (tag content : string) | RUntagged.
+Definition repr_of (l : list sattr) : repr :=
+  if has_attr "untagged" l then RUntagged
+  else match assoc "tag" l with
+       | Some t => match assoc "content" l with Some c => RAdjacent t c | None => RInternal t end
+       | None => RExternal
+       end.
+(** internally / adjacently tagged and untagged enums are read through `deserialize_any` /
+    `deserialize_identifier`, which a positional format cannot offer: only the external
+    representation (variant index) can be read back *)
+Definition repr_pos_ok (r : repr) : bool := match r with RExternal => true | _ => false end.
+Definition repr_key_by_name (r : repr) : bool := match r with RUntagged => false | _ => true end.
 
 (* ---- enum variants ---- *)
 (** generated Serialize: variant at position [p] (counted among ALL variants) is written with index p;
@@ -384,6 +619,24 @@ Fixpoint de_variant_from (vs : list variant_decl) (i : nat) (pos : nat) : option
   end.
 Definition de_variant (vs : list variant_decl) (i : N) : option nat := de_variant_from vs (N.to_nat i) 0.
 
+(** KEYED: the variant is written as its name (`visit_str`: the arms are tried in declaration order over the
+    variants that are not skipped); UNTAGGED: the variants that are not skipped are tried in order on the
+    payload, the first that accepts it wins. Both are "the first live variant that satisfies [p]". *)
+Fixpoint first_live (p : variant_decl -> bool) (vs : list variant_decl) (pos : nat) : option nat :=
+  match vs with
+  | [] => None
+  | v :: r => if negb (skips_de (vd_attrs v)) && p v then Some pos else first_live p r (S pos)
+  end.
+Definition ser_variant_key (vs : list variant_decl) (p : nat) : option string :=
+  match nth_error vs p with
+  | Some v => if skips_ser (vd_attrs v) then None else Some (vd_wire v)
+  | None => None
+  end.
+Definition de_variant_key (vs : list variant_decl) (name : string) : option nat :=
+  first_live (fun v => mem name (vd_de v)) vs 0.
+Definition de_untagged {A} (accepts : variant_decl -> A -> bool) (vs : list variant_decl) (payload : A) : option nat :=
+  first_live (fun v => accepts v payload) vs 0.
+
 (** no live variant comes after a skipped one (then both numberings agree on the live variants) *)
 Fixpoint index_stable (vs : list variant_decl) : bool :=
   match vs with
@@ -392,12 +645,54 @@ Fixpoint index_stable (vs : list variant_decl) : bool :=
               then forallb (fun w => skips_ser (vd_attrs w) && skips_de (vd_attrs w)) r
               else index_stable r
   end.
+(** no live variant answers to the name another live variant writes *)
+Fixpoint vnames_ok (vs : list variant_decl) : bool :=
+  match vs with
+  | [] => true
+  | v :: r => forallb (fun w => negb (mem (vd_wire w) (vd_de v)) && negb (mem (vd_wire v) (vd_de w))) r && vnames_ok r
+  end.
 
-(* ---- lookup ---- *)
+(* ------------------------------------------------------------------ static losslessness of a declaration *)
+(** sufficient for EVERY value of the field to come back: always written, always read, under a name it reads
+    itself. The one value-dependent attribute that is lossless by construction is the idiom
+    `skip_serializing_if = "Option::is_none"` on an `Option` without default (keyed formats only). *)
+Definition sif_none_idiom (cd : bool) (f : field_decl) : bool :=
+  match assoc "skip_serializing_if" (fd_attrs f) with
+  | Some a => String.eqb a """Option::is_none""" && f_is_option f && negb (f_has_default cd f)
+  | None => false
+  end.
+Definition field_key_static (cd : bool) (f : field_decl) : bool :=
+  no_opaque (fd_attrs f) && negb (skips_ser (fd_attrs f)) && f_read f && f_self_named f && negb (f_flatten f)
+  && (negb (f_sif f) || sif_none_idiom cd f).
+Definition variant_pos_static (v : variant_decl) : bool :=
+  no_opaque (vd_attrs v) && negb (skips_ser (vd_attrs v)) && negb (skips_de (vd_attrs v))
+  && negb (has_attr "untagged" (vd_attrs v)) && forallb field_pos_static (vd_fields v).
+Definition variant_key_static (v : variant_decl) : bool :=
+  no_opaque (vd_attrs v) && negb (skips_ser (vd_attrs v)) && negb (skips_de (vd_attrs v))
+  && negb (has_attr "untagged" (vd_attrs v)) && mem (vd_wire v) (vd_de v)
+  && forallb (field_key_static false) (vd_fields v) && names_ok (vd_fields v).
+Definition variant_lossless (v : variant_decl) : bool := variant_pos_static v.
+
+Definition lossless_decl_pos (d : type_decl) : bool :=
+  td_ser d && td_de d && no_opaque (td_attrs d) &&
+  match td_body d with
+  | BStruct _ fs => forallb field_pos_static fs
+  | BEnum vs => repr_pos_ok (repr_of (td_attrs d)) && forallb variant_pos_static vs
+  end.
+Definition lossless_decl_key (d : type_decl) : bool :=
+  td_ser d && td_de d && no_opaque (td_attrs d) &&
+  match td_body d with
+  | BStruct _ fs => forallb (field_key_static (c_default d)) fs && names_ok fs
+  | BEnum vs => repr_key_by_name (repr_of (td_attrs d)) && forallb variant_key_static vs && vnames_ok vs
+  end.
+(** lossless in both disciplines *)
+Definition lossless_decl (d : type_decl) : bool := lossless_decl_pos d && lossless_decl_key d.
+
+(* ---- lookup (by the name the serialiser shows) ---- *)
 Fixpoint find_decl (ds : list type_decl) (n : string) : option type_decl :=
   match ds with
   | [] => None
-  | d :: r => if String.eqb (td_name d) n then Some d else find_decl r n
+  | d :: r => if String.eqb (td_wire d) n then Some d else find_decl r n
   end.
 
 (** the documented exceptions (finding F17): type, field-or-variant *)
@@ -409,17 +704,23 @@ Definition known_type (t : string) : bool := existsb (fun p => String.eqb (fst p
 Definition minus_known (ds : list type_decl) : list type_decl :=
   filter (fun d => negb (known_type (td_name d))) ds.
 
-(** no lossy attribute on the declaration of a recorded type, the documented exceptions apart *)
-Definition attrs_ok_except (t m : string) (l : list sattr) : bool :=
-  forallb attr_lossless l || is_known_skip t m.
+(** the declaration with the documented `skip`s (and nothing else) taken away *)
+Definition drop_skip (l : list sattr) : list sattr := filter (fun a => negb (String.eqb (fst a) "skip")) l.
+Definition forgive (d : type_decl) : type_decl :=
+  let t := td_name d in
+  mkT t (td_wire d) (td_src d) (td_ser d) (td_de d) (td_attrs d)
+      match td_body d with
+      | BStruct k fs =>
+          BStruct k (map (fun f => if is_known_skip t (fd_name f)
+                                   then mkF (fd_name f) (fd_wire f) (fd_de f) (fd_ty f) (drop_skip (fd_attrs f)) else f) fs)
+      | BEnum vs =>
+          BEnum (map (fun v => if is_known_skip t (vd_name v)
+                               then mkV (vd_name v) (vd_wire v) (vd_de v) (vd_kind v) (drop_skip (vd_attrs v)) (vd_fields v)
+                               else v) vs)
+      end.
+(** no lossy attribute on the declaration, the documented exceptions apart *)
 Definition decl_lossless_or_known (d : type_decl) : bool :=
-  lossless_decl d ||
-  (known_type (td_name d) && td_ser d && td_de d && forallb attr_lossless (td_attrs d) &&
-   match td_body d with
-   | BStruct _ fs => forallb (fun f => attrs_ok_except (td_name d) (fd_name f) (fd_attrs f)) fs
-   | BEnum vs => forallb (fun v => attrs_ok_except (td_name d) (vd_name v) (vd_attrs v)
-                                   && forallb field_lossless (vd_fields v)) vs
-   end).
+  lossless_decl d || (known_type (td_name d) && lossless_decl (forgive d)).
 
 (** an enum is index-stable, or it is one of the documented exceptions *)
 Definition enum_stable (d : type_decl) : bool :=
